@@ -114,7 +114,6 @@ int main(int argc, char** argv) {
     auto python = std::make_shared<Python>();
     const std::string scratch = vh::scratch_dir(args);
     const std::string repo = getenv("VERIF_REPO") ? getenv("VERIF_REPO") : "/repo";
-    const double maxSeedSeconds = args.getd("max_seed_seconds", 0.5);
 
     // ---- corpus: shipped decks, flattened by the deck writer; cached per worker directory across restarts ----
     std::vector<Seed> corpus;
@@ -133,17 +132,16 @@ int main(int argc, char** argv) {
             std::string raw = vh::read_file(f);
             if (raw.size() > 400000 || raw.find("PYINPUT") != std::string::npos || raw.find("PYACTION") != std::string::npos) continue;
             std::string flat;
+            long cells = 0;
             try {
                 ParseContext pc; pc.update(InputErrorAction::IGNORE); ErrorGuard eg;
                 Deck d = parser.parseFile(f, pc, eg); eg.clear();
                 std::ostringstream s; s << d; flat = s.str();
+                if (d.hasKeyword("DIMENS")) { const auto& r = d["DIMENS"].back().getRecord(0); cells = (long)r.getItem(0).get<int>(0) * r.getItem(1).get<int>(0) * r.getItem(2).get<int>(0); }
             } catch (const std::exception&) { continue; }
-            if (flat.size() > 400000) continue;
-            auto t0 = std::chrono::steady_clock::now();
-            std::string w;
-            pipeline(parser, flat, true, "", python, w);
-            double dt = std::chrono::duration<double>(std::chrono::steady_clock::now() - t0).count();
-            if (dt > maxSeedSeconds) continue;
+            // the corpus must be a deterministic function of the tree (replayability): select by static size only
+            if (flat.size() > 150000) continue;
+            if (cells > 30000) continue;
             auto fname = [&](int k) { char b[16]; snprintf(b, sizeof b, "%04d.txt", k); return cdir + "/" + b; };
             vh::write_file(fname(n++), "-- seed " + fs::path(f).filename().string() + "\n" + flat);
             if (raw.size() < 60000) vh::write_file(fname(n++), "-- seed raw " + fs::path(f).filename().string() + "\n" + raw);
